@@ -7,8 +7,10 @@ def run(tier):
         'paths of 0..3 segments from {"",a,b.c} with 0..2 extra leading/trailing slashes x 4 queries x 2 schemes x 3 authorities x '
         '2 versions x with/without a header field), status lines (1000 codes x 6 reasons x 2 versions x 2 contexts), every header '
         'block of <=3 (thorough: <=4) fields from 16 name spellings x 4 values (all orderings and duplicates) under GET/POST/extension '
-        'request lines (all 14 method codes for <=2 fields), and on every clean block of <=3 fields every single edit: one control '
-        'byte at every position, SP before each colon, one extra framing field in every spelling/value/position. A case is '
+        'request lines (all 14 method codes for <=2 fields), and single edits on clean (block, request line) pairs: on blocks of '
+        '<=2 fields each of the 32 control bytes (00-1f without 09, 7f) inserted at every position, SP before each colon, one extra '
+        'framing field in every spelling/value/position that introduces a listed pattern; on 3-field blocks SP before each colon '
+        '(quick) / all of the above with the 10 boundary control bytes 00 01 08 0a 0b 0c 0d 0e 1f 7f (thorough). A case is '
         'non-trivial when the library accepted a well-formed line and every span matched, a lookup/count over a non-empty block '
         'matched the reference, or the security verdict matched the reference verdict')
     rep.assumptions = [
